@@ -14,7 +14,7 @@ line ending of the source, with the final line ending set by the option — for 
 lines, in the final (or only) pass of a build. -/
 theorem no_directive_identity {W : Type} (Wd : World W) (le : List Char) (trailing : Bool) (w : W)
     (lines : List (List Char)) (h : ∀ l ∈ lines, detectFrom l = none) :
-    ppPass Wd .build le false trailing w lines =
+    ppPass Wd .build le false trailing w lines true =
       .ok (joinWith le lines ++ (if !lines.isEmpty && trailing then le else [])) w := by
   have h1 : ∀ l ∈ lines, (txtppSem Wd .build le).detect l = none := by
     intro l hl; simp [txtppSem, h l hl]
@@ -28,7 +28,7 @@ theorem no_directive_identity {W : Type} (Wd : World W) (le : List Char) (traili
 /-- also in a first pass (no dependency directive can occur, so it is the only pass) -/
 theorem no_directive_identity_first {W : Type} (Wd : World W) (le : List Char) (trailing : Bool) (w : W)
     (lines : List (List Char)) (h : ∀ l ∈ lines, detectFrom l = none) :
-    ppPass Wd .build le true trailing w lines =
+    ppPass Wd .build le true trailing w lines true =
       .ok (joinWith le lines ++ (if !lines.isEmpty && trailing then le else [])) w := by
   have h1 : ∀ l ∈ lines, (txtppSem Wd .build le).detect l = none := by
     intro l hl; simp [txtppSem, h l hl]
